@@ -72,21 +72,50 @@ def uninstrument():
         _installed['codes'] = {}
 
 
+class _PoolThread:
+    """A long-lived OS thread that executes the body of one managed thread per
+    run (creating and joining threads for every schedule costs more than the
+    schedule itself).  Its lock is the managed thread's parking place: the
+    thread sleeps in lock.acquire(); lock.release() wakes it exactly once."""
+    def __init__(self):
+        self.lock = threading.Lock()
+        self.lock.acquire()
+        self.job = None
+        self.retired = False
+        self.thread = threading.Thread(target=self._loop, daemon=True,
+                                       name='vf-c13-pool')
+        self.thread.start()
+
+    def _loop(self):
+        while not self.retired:
+            self.lock.acquire()
+            job, self.job = self.job, None
+            if job is not None:
+                job()
+
+
+_pool = []
+
+
+def _take_pool_thread():
+    return _pool.pop() if _pool else _PoolThread()
+
+
 class _Managed:
-    __slots__ = ('idx', 'name', 'fn', 'state', 'lock', 'cond', 'thread',
-                 'error', 'steps')
+    __slots__ = ('idx', 'name', 'fn', 'state', 'lock', 'cond', 'pt',
+                 'error', 'steps', 'exited')
 
     def __init__(self, idx, name, fn):
         self.idx = idx
         self.name = name
         self.fn = fn
         self.state = NEW
-        self.lock = threading.Lock()
-        self.lock.acquire()            # parked until released
+        self.lock = None               # the pool thread's lock
         self.cond = None
-        self.thread = None
+        self.pt = None
         self.error = None
         self.steps = 0
+        self.exited = False
 
 
 class Sched:
@@ -105,7 +134,7 @@ class Sched:
         self.outcome = None      # 'quiescent' | 'watchdog' | 'step-limit' | ...
         self.problems = []       # harness-level problems (=> inconclusive)
         self._done = threading.Event()
-        self._started = threading.Semaphore(0)
+        self._exited = threading.Semaphore(0)
 
     # -- set-up ---------------------------------------------------------------
     def add_thread(self, name, fn):
@@ -114,12 +143,10 @@ class Sched:
         return t.idx
 
     def _body(self, t):
-        self.by_ident[threading.get_ident()] = t
-        t.state = READY
-        self._started.release()
+        # first wake-up of the pool thread = first time the strategy picks t
         try:
-            self._park(t)
-            t.fn()
+            if not self.aborting:
+                t.fn()
         except Abort:
             pass
         except BaseException as err:       # harness bug or escaped exception
@@ -130,6 +157,8 @@ class Sched:
                 self._switch(t)
             except Abort:
                 pass
+        t.exited = True
+        self._exited.release()
 
     # -- hand-off -------------------------------------------------------------
     def _park(self, t):
@@ -225,43 +254,53 @@ class Sched:
         return t.idx if t is not None else None
 
     # -- the run --------------------------------------------------------------
+    def alive(self, idx):
+        """The managed thread has not left its body."""
+        t = self.threads[idx]
+        return t.state != FINISHED and not t.exited
+
     def run(self, at_quiescence=None):
-        """Start the managed threads, let the strategy interleave them until no
-        thread is eligible, call at_quiescence() while everything is parked,
-        then unwind and join the threads.  Returns the outcome string."""
+        """Let the strategy interleave the managed threads until no thread is
+        eligible, call at_quiescence() while everything is parked, then unwind
+        the threads.  Returns the outcome string."""
         _current[0] = self
         try:
             for t in self.threads:
-                t.thread = threading.Thread(target=self._body, args=(t,),
-                                            name='vf-' + t.name, daemon=True)
-                t.thread.start()
-            for _ in self.threads:
-                if not self._started.acquire(timeout=self.watchdog_s):
-                    self.problems.append('managed thread did not start')
-                    self.outcome = 'watchdog'
-                    break
-            if self.outcome is None:
-                self._switch(None)
-                if not self._done.wait(self.watchdog_s):
-                    self.problems.append('wall-clock watchdog (%.0fs) fired'
-                                         % self.watchdog_s)
-                    self.outcome = 'watchdog'
+                t.pt = _take_pool_thread()
+                t.lock = t.pt.lock
+                t.pt.job = (lambda t=t: self._body(t))
+                self.by_ident[t.pt.thread.ident] = t
+                t.state = READY
+            self._switch(None)
+            if not self._done.wait(self.watchdog_s):
+                self.problems.append('wall-clock watchdog (%.0fs) fired'
+                                     % self.watchdog_s)
+                self.outcome = 'watchdog'
             if self.outcome == 'quiescent' and at_quiescence is not None:
                 at_quiescence()
         finally:
             self.aborting = True
+            clean = self.outcome == 'quiescent'
             for t in self.threads:
-                if t.state != FINISHED:
+                if t.pt is not None and t.state != FINISHED:
                     try:
                         t.lock.release()
                     except RuntimeError:
-                        pass
+                        clean = False
             for t in self.threads:
-                if t.thread is not None:
-                    t.thread.join(self.watchdog_s)
-                    if t.thread.is_alive():
-                        self.problems.append('thread %s did not unwind'
-                                             % t.name)
+                if t.pt is None:
+                    continue
+                if not self._exited.acquire(timeout=self.watchdog_s):
+                    self.problems.append('a managed thread did not unwind')
+                    clean = False
+                    break
+            for t in self.threads:
+                if t.pt is None:
+                    continue
+                if clean and t.exited:
+                    _pool.append(t.pt)
+                else:
+                    t.pt.retired = True    # never reused; dies when it returns
             _current[0] = None
         for t in self.threads:
             if t.error is not None:
